@@ -321,7 +321,12 @@ def gen_history_plans(ctx):
             events.append({"sender": 0, "key": 0, "fc": 1, "lvl": 5, "ft": 1})
         events.append({"sender": 0, "key": "rogue", "fc": min(counters.get((0, 0), base) + 7, 0xFFFFFFFF), "lvl": 5, "ft": 0})
         events.append({"sender": 0, "key": 0, "fc": min(counters.get((0, 0), base) + 9, 0xFFFFFFFF), "lvl": 5, "ft": 0, "kseq": seqs[2]})   # unknown sequence number
-        plans.append({"cfg": cfg, "keys": keys, "rogue": rogue, "senders": senders, "events": events})
+        # a key that is not provisioned at the start: added by a management operation in the schedule; one time in three it
+        # announces the sequence number of an already provisioned key (then it stays shadowed by that key)
+        late = (rb(rng, 16), seqs[0] if hi % 3 == 0 else seqs[1] if nkeys == 1 else rng.choice([s_ for s_ in range(256) if s_ not in seqs]))
+        for _ in range(2):
+            events.append({"sender": rng.randrange(len(senders)), "key": "late", "fc": min(base + rng.randrange(1, 40), 0xFFFFFFFF), "lvl": rng.choice([0, 5, 6]), "ft": rng.choice([0, 1])})
+        plans.append({"cfg": cfg, "keys": keys, "rogue": rogue, "late": late, "senders": senders, "events": events})
     return plans
 
 
@@ -329,7 +334,7 @@ def plan_enc_cases(rng, plan):
     """phase-1 encrypt cases for the genuine events of a plan (built the way NWKDataService builds them)."""
     out = []
     for ev in plan["events"]:
-        key, seq = plan["rogue"] if ev["key"] == "rogue" else plan["keys"][ev["key"]]
+        key, seq = plan["rogue"] if ev["key"] == "rogue" else plan["late"] if ev["key"] == "late" else plan["keys"][ev["key"]]
         f = gen_secured(rng, "nwk", lvl=ev["lvl"], kt=1, ft=ev["ft"], fc=ev["fc"], src=plan["senders"][ev["sender"]],
                         kseq=ev.get("kseq", seq), n=rng.choice([0, 1, 2, 5, 20]), rich=False)
         M = M_OF[f.lvl]
@@ -372,6 +377,33 @@ def plan_schedule(rng, plan, enc_frames):
         b = bytearray(bytes.fromhex(enc_frames[0]))
         b[17] = (b[17] & 0xF8) | 4
         sched.insert(rng.randrange(len(sched) + 1), (bytes(b).hex(), "level4", 0))
+    # ---- management operations on the NWK manager, interleaved with the frames ----
+    def mg(op, **kw):
+        return (dict(kw, mgmt=op), "mgmt", None)
+    def genuine_of(keyref):
+        return [(enc_frames[i], "replay", i) for i, ev in enumerate(plan["events"]) if ev["key"] == keyref and "kseq" not in ev]
+    late_k, late_s = plan["late"]
+    first_late = min([j for j, e in enumerate(sched) if e[2] is not None and plan["events"][e[2]]["key"] == "late"] or [len(sched)])
+    sched.insert(rng.randrange(0, first_late + 1) if rng.random() < 0.7 else min(len(sched), first_late + 1), mg("add_key", key=late_k.hex(), seq=late_s))
+    k0, s0 = plan["keys"][0]
+    half = len(sched) // 2
+    # an already provisioned key again (same sequence number, then another one): must change nothing ...
+    sched.insert(rng.randrange(half, len(sched) + 1), mg("add_key", key=k0.hex(), seq=s0))
+    sched.insert(rng.randrange(0, len(sched) + 1), mg("add_key", key=k0.hex(), seq=(s0 + 1 + rng.randrange(200)) % 256))
+    sched.insert(rng.randrange(0, len(sched) + 1), mg("set_active", seq=rng.choice([s0, late_s, rng.randrange(256)])))
+    # ... in particular not the counters: everything accepted so far is replayed after one more add_key of the known key
+    sched.append(mg("add_key", key=k0.hex(), seq=s0))
+    sched += genuine_of(0)[:6]
+    if len(plan["keys"]) > 1 and rng.random() < 0.7:
+        # remove a key (its frames are then refused), provision it again (empty counter table: earlier frames are acceptable again, once)
+        k1, s1 = plan["keys"][1]
+        sched.append(mg("remove_key", key=k1.hex()))
+        sched += genuine_of(1)[:2]
+        sched.append(mg("add_key", key=k1.hex(), seq=s1))
+        sched += genuine_of(1)[:2] + genuine_of(1)[:1]
+    if rng.random() < 0.5:
+        sched.append(mg("set_active", seq=late_s))
+        sched += genuine_of("late")[:1] + genuine_of(0)[:1]
     return sched
 
 
@@ -501,11 +533,21 @@ def coq_table(tables):
     return clist(["(%d, %s)" % (seq, clist(["(%s, %d)" % (cbytes(bytes.fromhex(a or "")), c) for a, c in t])) for seq, t in tables])
 
 
-def coq_history(cfg, steps):
+def coq_ktables(kt):
+    return clist(["(%d, %s, %s)" % (seq, cbytes(bytes.fromhex(key)), clist(["(%s, %d)" % (cbytes(bytes.fromhex(a or "")), c) for a, c in t]))
+                  for seq, key, t in kt])
+
+
+def coq_history(cfg, sched, steps):
     mats = clist(["(mkMat %d %s [])" % (s, cbytes(bytes.fromhex(k))) for k, s in cfg["keys"]])
-    st = "(mkNwk %d %s %s %s)" % (cfg["level"], cbool(cfg["all_fresh"]), cbool(cfg["secure_all"]), mats)
+    st = "((mkNwk %d %s %s %s), 0)" % (cfg["level"], cbool(cfg["all_fresh"]), cbool(cfg["secure_all"]), mats)
     items = []
-    for r in steps:
+    for (item, kind, _ei), r in zip(sched, steps):
+        if kind == "mgmt":
+            m = ("(AddKey %s %d)" % (cbytes(bytes.fromhex(item["key"])), item["seq"]) if item["mgmt"] == "add_key" else
+                 "(SetActive %d)" % item["seq"] if item["mgmt"] == "set_active" else "(RemoveKey %s)" % cbytes(bytes.fromhex(item["key"])))
+            items.append("(HMgmt %s, ObsNone, %d, %s)" % (m, r["active"], coq_ktables(r["ktables"])))
+            continue
         d = r["in"]
         if d.get("nosec"):
             raw = bytes.fromhex(r["in_raw"])
@@ -522,7 +564,7 @@ def coq_history(cfg, steps):
                 o = "(ObsUpSecured %d %s)" % (SVC[u["svc"]], coq_frame(u["dis"]))
             else:
                 o = "(ObsUpPlain %d %s)" % (SVC[u["svc"]], cbytes(bytes.fromhex(u["raw"])))
-        items.append("(%s, %s, %s)" % (p, o, coq_table(r["tables"])))
+        items.append("(HPdu %s, %s, %d, %s)" % (p, o, r["active"], coq_ktables(r["ktables"])))
     return "(%s, %s)" % (st, clist(items))
 
 
@@ -793,10 +835,23 @@ def run(ctx):
     for (p, sched), hreq, steps in zip(hist_sched, hist_reqs, r2["nwk"]):
         cfg = p["cfg"]
         last = {}
+        mats = [(s_, k_) for k_, s_ in cfg["keys"]]      # specification of the material set: (sequence number, key) in order
         case_base = {"op": "nwk-history", "cfg": cfg, "frames": hreq["frames"], "direct": hreq.get("direct", False)}
         modelable = True
         for k, ((fhex, kind, ei), r) in enumerate(zip(sched, steps)):
             case = dict(case_base, upto=k, kind=kind)
+            if kind == "mgmt":
+                op = fhex
+                hdist["mgmt:" + op["mgmt"]] = hdist.get("mgmt:" + op["mgmt"], 0) + 1
+                if "exc" in r:
+                    modelable = False
+                    nviol += ctx.violation("management operation on the NWK manager raised " + r["exc"], case, observed=r)
+                if op["mgmt"] == "add_key" and op["key"] not in [k_ for _s, k_ in mats]:
+                    mats.append((op["seq"], op["key"]))
+                elif op["mgmt"] == "remove_key":
+                    mats = [x for x in mats if x[1] != op["key"]]
+                    last = {t: c for t, c in last.items() if t[0] != op["key"]}      # the table goes with the material
+                continue
             ev = p["events"][ei] if ei is not None else None
             d = r["in"]
             if not d.get("nosec") and not in_model(d):
@@ -812,8 +867,10 @@ def run(ctx):
                     nviol += ctx.violation("unsecured frame delivered although nwkSecureAllFrames is set", case, observed=delivered)
                 hdist["unsecured-up" if delivered else "unsecured-dropped"] += 1
                 continue
-            genuine = (kind in ("genuine", "replay", "old") and ev["key"] != "rogue" and "kseq" not in ev and cfg["level"] != 0)
-            tk = (d.get("kseq"), d.get("src")) if not d.get("nosec") else None
+            actual = (p["rogue"] if ev["key"] == "rogue" else p["late"] if ev["key"] == "late" else p["keys"][ev["key"]])[0].hex()
+            sel = next((k_ for s_, k_ in mats if s_ == d.get("kseq")), None)      # the material NWKManager.decrypt must select
+            genuine = (kind in ("genuine", "replay", "old") and sel is not None and sel == actual and cfg["level"] != 0)
+            tk = (sel, d.get("src")) if not d.get("nosec") else None
             fresh = tk is not None and (tk not in last or d["fc"] > last[tk])
             if delivered:
                 u = delivered[0]
@@ -839,10 +896,10 @@ def run(ctx):
                     nviol += ctx.violation("NWK layer dropped an authentic frame with a fresh counter", case, expected="delivered", observed=r)
                 key = ("level0-dropped" if cfg["level"] == 0 else "rogue-dropped" if ev and ev["key"] == "rogue" else
                        "unknown-seq-dropped" if ev and "kseq" in ev else "tampered-dropped" if kind in ("tampered", "level4") else
-                       "replay-dropped" if kind == "replay" else "old-dropped")
-                hdist[key] += 1
+                       "key-not-provisioned-dropped" if not genuine else "replay-dropped" if kind == "replay" else "old-dropped")
+                hdist[key] = hdist.get(key, 0) + 1
         if modelable:
-            hist_terms.append(coq_history(cfg, steps))
+            hist_terms.append(coq_history(cfg, sched, steps))
             nontrivial.append(["hist", cfg, hreq["frames"]])
     dist["nwk_history_events"] = hdist
 
@@ -950,7 +1007,7 @@ def run(ctx):
     bad_k += ["instance-sequence:%d" % i for i in bad_sq]
     bad_ah, logs_ah = C.run_cases(PID, "apshist", PRE, "aps * list (nsdu * obs_aps)", aps_terms_h, "check_aps", shard=8)
     bad_k += ["aps-history:%d" % i for i in bad_ah]
-    bad_n, logs_n = C.run_cases(PID, "nwk", PRE, "nwk * list (npdu * obs_up * list (N * list (bytes * N)))", hist_terms, "check_nwk", shard=8)
+    bad_n, logs_n = C.run_cases(PID, "nwk", PRE, "hstate * list (hitem * obs_up * N * list (N * bytes * list (bytes * N)))", hist_terms, "check_nwk_mgmt", shard=4)
     ctx.notes += logs_c[:2] + logs_h[:1] + logs_k[:1] + logs_n[:2]
     ctx.log("correspondence: crypt %d cases %d bad; hash %d/%d bad %d/%d; nwk histories %d bad %d; aps histories %d bad %d; instance sequences %d bad %d"
             % (len(crypt_terms), len(bad_c), len(hk_terms), len(hkk_terms), len(bad_h), len(bad_k), len(hist_terms), len(bad_n), len(aps_terms_h), len(bad_ah),
@@ -978,7 +1035,7 @@ def run(ctx):
     ctx.cov["samples"] = [
         {"roundtrip": {k: rt_cases[7][k] for k in ("mgr", "frame", "set")}, "impl": [{k: s.get(k) for k in ("status", "exc", "out_frame")} for s in res_rt[7]]},
         {"tamper": tam_cases[0], "meta": {k: tam_meta[0][k] for k in ("kind", "src")}, "impl_status": r2["crypt"][0][0].get("status")} if tam_cases else {},
-        {"nwk_history": hist_reqs[0], "impl": [{"up": [u["svc"] for u in s["up"]], "tables": s["tables"], "exc": s.get("exc")} for s in r2["nwk"][0]]} if hist_reqs else {},
+        {"nwk_history": hist_reqs[0], "impl": [{"up": [u["svc"] for u in s["up"]], "ktables": s.get("ktables"), "active": s.get("active"), "mgmt": s.get("mgmt"), "exc": s.get("exc")} for s in r2["nwk"][0]]} if hist_reqs else {},
     ]
     ctx.cov["source_ties"] = ctx.cov.get("source_ties", []) + [C.source_tie("whad/zigbee/crypto.py", 15, 48), C.source_tie("whad/zigbee/crypto.py", 51, 245),
                               C.source_tie("whad/zigbee/stack/nwk/__init__.py", 1093, 1203),
